@@ -17,6 +17,7 @@ package internal
 import (
 	"encoding/json"
 	"fmt"
+	"sort"
 	"strconv"
 	"sync"
 	"time"
@@ -156,6 +157,8 @@ func (k KeyData) MarshalJSON() ([]byte, error) {
 			}
 			fields = append(fields, hashFieldJSON{Field: BytesString(field), Type: typ, Value: b})
 		}
+		// Sorted, so that equal hashes have equal encodings (snapshots are compared by their hash).
+		sort.Slice(fields, func(i, j int) bool { return fields[i].Field < fields[j].Field })
 		out.Value, err = json.Marshal(fields)
 	case JSONCompositeType:
 		out.Type = v.TypeName()
